@@ -52,7 +52,11 @@ func (f *Multiply) Call(s *slip.Scope, args slip.List, depth int) (product slip.
 		case slip.DoubleFloat:
 			product = ta * product.(slip.DoubleFloat)
 		case *slip.LongFloat:
-			syncFloatPrec(ta, product.(*slip.LongFloat))
+			{
+				var lf *slip.LongFloat
+				ta, lf = syncFloatPrec(ta, product.(*slip.LongFloat))
+				product = lf
+			}
 			product = (*slip.LongFloat)(((*big.Float)(product.(*slip.LongFloat))).Mul(
 				(*big.Float)(product.(*slip.LongFloat)),
 				(*big.Float)(ta)),
